@@ -1304,7 +1304,7 @@ def run(ctx):
         describe(concretize_step(x, Conc(canonical=True), rng, [])) for x in paths[mid["_f"]] + [mid]))
 
     # 2b. random walks from DB() (long histories; queries checked after every call)
-    nwalks, wlen = (160, 12) if quick else (1200, 25)
+    nwalks, wlen = (160, 12) if quick else (900, 25)
     w8 = {"insert": 6, "read": 2, "reverse": 3, "copy": 1, "facet": 3, "restrict_p": 1, "filter_t": 1,
           "read_fails": 2, "qread_fails": 2}
     for w in range(nwalks):
@@ -1316,7 +1316,7 @@ def run(ctx):
     # 2b'. size stress through the replay leg: blown-up concretizations of abstract behaviours
     shapes = [dict(np=3334, nt=3, pad=0), dict(np=11, nt=334, pad=0), dict(np=40, nt=5, pad=4096),
               dict(np=257, nt=33, pad=129), dict(np=1000, nt=17, pad=0), dict(np=2, nt=1001, pad=33)]
-    nbig = 3 if quick else 18
+    nbig = 3 if quick else 12
     bigs = []
     for b in range(nbig):
         if nviol[0] >= 5:
